@@ -59,7 +59,10 @@ int main() {
                 std::string name, ret; is >> name >> ret;
                 vec<SRef> args; std::string a;
                 while (is >> a) { args.push(sortByName(logic, sorts, a)); }
-                funs[name] = logic.declareFun(name, sortByName(logic, sorts, ret), args);
+                // a name may be declared with several arities, and declared again: "<name>#<arity>" selects the overload
+                SymRef sr = logic.declareFun(name, sortByName(logic, sorts, ret), args);
+                funs[name] = sr;
+                funs[name + "#" + std::to_string(args.size())] = sr;
                 continue;
             }
             is >> id;
